@@ -61,7 +61,7 @@ class Contract:
                  ghost=None, axioms=(), method_of=None, notes='', drop_calls=(),
                  expect_obligations=None, cover=True, exc_mode='auto', spec_module=None,
                  safety=True, witness=None, merge=True, yield_each=(), yield_key=None,
-                 concrete_ensures=(), witness_library=()):
+                 concrete_ensures=(), witness_library=(), yield_each_local=()):
         self.id = id
         self.file = file
         self.qualname = qualname
@@ -107,6 +107,7 @@ class Contract:
         self.witness = witness
         self.merge = merge
         self.yield_each = list(yield_each)      # P(c) proved at every yield, over entry values only
+        self.yield_each_local = list(yield_each_local)   # P(c, locals at the yield): 'exists locals' semantics
         self.yield_key = yield_key              # key(c): proved fresh at every yield (=> pairwise distinct)
         self.witness_library = list(witness_library)   # concrete inputs tried on the real code when a proof fails
         self.concrete_ensures = list(concrete_ensures)   # executable consequences, used by replay only
